@@ -270,6 +270,90 @@ def interleave_case(ctx, hist=None, marks=None, tail=None):
     return bad
 
 
+def switched_supply_desc(rng):
+    """two supplies of different voltage, the preferred one present in some phases only, a PMux, and behind it a stage whose parameter
+    is tabulated over input voltage AND output current, loaded by a constant current outside (or inside) the tabulated current range:
+    the same stage sees the same current at two input voltages, depending on the phase"""
+    v1, v2 = gen.sd(rng, 9.0, 14.0), gen.sd(rng, 3.3, 5.5)
+    names = rng.sample(["docked", "mobile", "tx", "idle"], rng.randint(2, 4))
+    on = rng.sample(names, rng.randint(1, len(names) - 1))
+    comps = [{"name": "S1", "kind": "source", "args": {"vo": v1}, "parents": [], "pconf": on},
+             {"name": "S2", "kind": "source", "args": {"vo": v2}, "parents": []},
+             {"name": "MX", "kind": "pmux", "args": {"rs": gen.sd(rng, 1e-3, 0.05)}, "parents": ["S1", "S2"]}]
+    vi = sorted({float("%.3g" % x) for x in (0.8 * v2, v2, 0.5 * (v1 + v2), v1, 1.2 * v1)})
+    io = [0.1, 0.3, 0.6, 1.0]
+    kind = rng.choice(["converter", "converter", "linreg", "pswitch", "vloss"])
+    if kind == "converter":
+        tab = {"vi": vi, "io": io, "eff": [[gen.ud(rng, 0.55, 0.95, 3) for _ in io] for _ in vi]}
+        comps.append({"name": "X", "kind": "converter", "args": {"vo": 1.8, "eff": tab}, "parents": ["MX"]})
+    elif kind == "linreg":
+        tab = {"vi": vi, "io": io, "ig": [[gen.ud(rng, 1e-4, 5e-3, 3) for _ in io] for _ in vi]}
+        comps.append({"name": "X", "kind": "linreg", "args": {"vo": 1.8, "ig": tab}, "parents": ["MX"]})
+    elif kind == "pswitch":
+        tab = {"vi": vi, "io": io, "ig": [[gen.ud(rng, 1e-4, 5e-3, 3) for _ in io] for _ in vi]}
+        comps.append({"name": "X", "kind": "pswitch", "args": {"rs": 0.01, "ig": tab}, "parents": ["MX"]})
+    else:
+        tab = {"vi": vi, "io": io, "vdrop": [[gen.ud(rng, 0.05, 0.6, 3) for _ in io] for _ in vi]}
+        comps.append({"name": "X", "kind": "vloss", "args": {"vdrop": tab}, "parents": ["MX"]})
+    ii = rng.choice([0.01, 0.03, 0.2, 0.45, 1.6, 3.0])          # below / inside / above the tabulated currents
+    comps.append({"name": "L", "kind": "iload", "args": {"ii": ii}, "parents": ["X"]})
+    return {"name": "sys", "comps": comps, "phases": {p: gen.sd(rng, 1.0, 1e4) for p in names}, "_build": {"phase_order": "normal"}}
+
+
+def phase_order_case(ctx, case=None):
+    """"interleaving any of these calls changes no later result", for the solver itself: on ONE system the phases are solved one by
+    one in a shuffled order (optionally after an all-phase solve / a rail report); each single-phase table must be exactly the table a
+    FRESH, identically built system gives for that phase alone.  Systems with tabulated parameters and loads far below / above the
+    tabulated currents (micro regime, heavy loads), supplies that differ from phase to phase (phase-switched sources, a PMux)."""
+    rng = ctx.rng
+    if case is None and rng.random() < 0.4:
+        case = {"desc": switched_supply_desc(rng), "warmup": rng.choice(["none", "none", "solve", "rail_rep"])}
+        case["phase_order"] = list(case["desc"]["phases"])
+        rng.shuffle(case["phase_order"])
+    if case is None:
+        desc = gen.gen_system(rng, max_nodes=10, p_table=0.9, phases=1.0, p_mux=0.6, n_sources=rng.choice([1, 2, 2, 3]),
+                              p_micro=0.5, p_neg_src_rs=0.0, p_detour=0.0, p_bridge=0.0, p_moved=0.0, p_rename=0.0, heavy=rng.random() < 0.2)
+        phs = list(desc["phases"])
+        rng.shuffle(phs)
+        case = {"desc": desc, "phase_order": phs, "warmup": rng.choice(["none", "none", "solve", "rail_rep"])}
+    desc, phs = case["desc"], case["phase_order"]
+    sys_, e = sysdesc.quiet_call(sysdesc.build, copy.deepcopy(desc))
+    if e is not None:
+        ctx.stats["phase_order:skipped:build"] += 1
+        return None
+    ctx.stats["phase_order:cases"] += 1
+    if case["warmup"] == "solve":
+        H.quiet(sys_.solve)
+    elif case["warmup"] == "rail_rep":
+        H.quiet(sys_.rail_rep)
+    seen = 0
+    for ph in phs:
+        a, ea, _ = H.quiet(lambda: sys_.solve(phase=ph))
+        fresh, e = sysdesc.quiet_call(sysdesc.build, copy.deepcopy(desc))
+        if e is not None:
+            return None
+        b, eb, _ = H.quiet(lambda: fresh.solve(phase=ph))
+        ra = ("exc", H.exc_name(ea)) if ea is not None else ("ok", json.dumps(_plain(c16.df_rows(a, ["Component", "Phase"])), default=str))
+        rb = ("exc", H.exc_name(eb)) if eb is not None else ("ok", json.dumps(_plain(c16.df_rows(b, ["Component", "Phase"])), default=str))
+        seen += ra[0] == "ok"
+        if ra != rb:
+            d = None
+            if ra[0] == rb[0] == "ok":
+                d = c16.diff_report("solve", ("ok", c16.df_rows(a, ["Component", "Phase"])), ("ok", c16.df_rows(b, ["Component", "Phase"])))
+            if ra[0] != rb[0] or d is not None or ra[1] != rb[1]:
+                ctx.oracle(dict(case, stream="phase_order"), "solve_repeatable", "solve", {"phase_order": True},
+                           {"phase": ph, "solved_after": phs[:phs.index(ph)], "warmup": case["warmup"],
+                            "difference": d if d is not None else {"a": ra[1][:200], "b": rb[1][:200]},
+                            "a_is": "solve(phase=%r) on a system that has solved other phases before" % ph,
+                            "b_is": "the same call on a fresh, identically built system"})
+                return True
+    ctx.case(key=["phase_order", json.dumps(desc, sort_keys=True, default=str), phs], nontrivial=seen >= 2,
+             sample={"stream": "phase_order", "phases": phs, "warmup": case["warmup"],
+                     "system": [(c["kind"], c["name"], c["parents"]) for c in desc["comps"]]})
+    ctx.traces += 1
+    return False
+
+
 def battery_part(ctx, n):
     """clause 3 on the implementation: the battery's params() row before vs after batt_life, for every failure position"""
     done = 0
@@ -304,6 +388,8 @@ def run(ctx):
         analyse_session(ctx, *got, stream="gen" if k % 3 else "edited")
     for _ in range(ctx.n(40, 1000)):
         interleave_case(ctx)
+    for _ in range(ctx.n(60, 1000)):
+        phase_order_case(ctx)
     battery_part(ctx, ctx.n(5, 60))
 
 
@@ -316,6 +402,9 @@ def search(ctx):
 
 def replay(ctx, data):
     case = data["case"]
+    if case.get("stream") == "phase_order":
+        phase_order_case(ctx, case={k: case[k] for k in ("desc", "phase_order", "warmup")})
+        return
     if "marks" in case:
         interleave_case(ctx, hist=case["history"], marks=case["marks"], tail=case.get("tail"))
         return
